@@ -27,6 +27,18 @@ size_t __sanitizer_get_current_allocated_bytes(void);
 extern size_t yr_verif_arena_initial_size;   /* hook H1 (compiler.c) */
 #endif
 
+#ifdef YV_FAULT
+void* __real_malloc(size_t); void* __real_calloc(size_t, size_t); void* __real_realloc(void*, size_t);
+char* __real_strdup(const char*);
+#define malloc __real_malloc
+#define calloc __real_calloc
+#define realloc __real_realloc
+#define strdup __real_strdup
+extern char yv_fault_stack[2048];
+#else
+static char yv_fault_stack[8];
+#endif
+
 #define MAXSLOT 64
 #define MAXDATA 4096
 #define MAXTOK 64
@@ -69,6 +81,18 @@ static void jstr(const char* s, size_t n)
 }
 
 static void jcstr(const char* s) { if (s == NULL) fputs("null", out); else jstr(s, strlen(s)); }
+
+/* called by the fault injector at the moment of the first injected failure (the operation may never return) */
+void yv_on_fault(const char* stack)
+{
+  FILE* f = fopen("/proc/self/fd/2", "w");
+  (void) f;
+  fflush(out);
+  char buf[2300];
+  int n = snprintf(buf, sizeof buf, "\n{\"e\":\"FaultAt\",\"stack\":\"%s\"}\n", stack);
+  if (write(fileno(out), buf, n)) {}
+  if (f) fclose(f);
+}
 
 static void jbytes(const uint8_t* p, size_t n)
 {
@@ -578,6 +602,8 @@ int main(int argc, char** argv)
     const char* op = tok[0];
 #define NEED(n) do { if (nt < (n) + 1) die("%s needs %d args", op, (n)); } while (0)
     alarm(hang_seconds);
+    long faults_before = yv_faults_injected;
+    (void) faults_before;
 
     if (!strcmp(op, "init")) { int r = yr_initialize(); fprintf(out, "{\"e\":\"Init\",\"ret\":%d}\n", r); }
     else if (!strcmp(op, "finalize")) { int r = yr_finalize(); fprintf(out, "{\"e\":\"Finalize\",\"ret\":%d}\n", r); }
@@ -588,12 +614,12 @@ int main(int argc, char** argv)
       else if (!strcmp(tok[1], "quietnomatch")) default_quiet = atoi(tok[2]);
       else if (!strcmp(tok[1], "iterlog")) iter_log = atoi(tok[2]);
       else if (!strcmp(tok[1], "hang")) hang_seconds = atoi(tok[2]);
-      else if (!strcmp(tok[1], "failat")) { yv_fail_at = atol(tok[2]); yv_alloc_count = 0; yv_fault_enabled = 1; }
+      else if (!strcmp(tok[1], "failat")) { yv_fail_at = atol(tok[2]); yv_alloc_count = 0; yv_faults_injected = 0; yv_fault_enabled = 1; }
       else if (!strcmp(tok[1], "failsticky")) yv_fail_sticky = atoi(tok[2]);
 #ifdef YARA_VERIF
       else if (!strcmp(tok[1], "arenasize")) yr_verif_arena_initial_size = strtoull(tok[2], 0, 10);
 #endif
-      else if (!strcmp(tok[1], "failoff")) { yv_fault_enabled = 0; yv_fail_at = -1; }
+      else if (!strcmp(tok[1], "failoff")) { yv_fault_enabled = 0; yv_fail_at = -1; yv_fail_sticky = 0; yv_faults_injected = 0; }
       else die("unknown opt %s", tok[1]);
     }
     else if (!strcmp(op, "config"))
@@ -676,6 +702,7 @@ int main(int argc, char** argv)
       /* qtable <c> <hex of entries (4 atom bytes + 1 quality each, sorted)> <threshold> */
       NEED(3);
       int c = slot(tok[1], MAXSLOT);
+      if (compilers[c] == NULL) continue;
       BLOB t = unhex(tok[2]);
       free(qtables[c]);
       qtables[c] = t.p;
@@ -690,6 +717,11 @@ int main(int argc, char** argv)
       NEED(3);
       int c = slot(tok[1], MAXSLOT);
       const char* ns = strcmp(tok[2], "-") == 0 ? NULL : tok[2];
+      if (compilers[c] == NULL)
+      {
+        fprintf(out, "{\"e\":\"Compile\",\"cid\":%d,\"via\":\"%s\",\"ret\":-1,\"errors\":0,\"warnings\":0,\"diag\":[],\"skipped\":\"no compiler\"}\n", c, op);
+        continue;
+      }
       if (compilers[c]->errors > 0)
       {
         /* adding sources after a failed compilation is an API misuse (assert in compiler.c) */
@@ -721,7 +753,7 @@ int main(int argc, char** argv)
     {
       NEED(2);
       int c = slot(tok[1], MAXSLOT), rr = slot(tok[2], MAXSLOT);
-      if (compilers[c]->errors > 0)
+      if (compilers[c] == NULL || compilers[c]->errors > 0)
       {
         /* calling get_rules after a failed compilation is an API misuse (assert in compiler.c) */
         rulesets[rr] = NULL;
@@ -997,10 +1029,16 @@ int main(int argc, char** argv)
     }
     else if (!strcmp(op, "rmfile")) { NEED(1); unlink(tok[1]); }
     else if (!strcmp(op, "reset")) { fputs("{\"e\":\"Reset\"}\n", out); }
-    else if (!strcmp(op, "note")) { NEED(1); fputs("{\"e\":\"Note\",\"text\":", out); jcstr(tok[1]); fputs("}\n", out); }
+    else if (!strcmp(op, "note")) { NEED(1); fputs("{\"e\":\"Note\",\"text\":", out); jcstr(tok[1]); fputs("}\n", out); fflush(out); }
     else if (!strcmp(op, "allocs")) { fprintf(out, "{\"e\":\"Allocs\",\"count\":%ld,\"injected\":%ld}\n", yv_alloc_count, yv_faults_injected); }
     else die("unknown op %s", op);
     alarm(0);
+    if (yv_faults_injected != faults_before)
+    {
+      fprintf(out, "{\"e\":\"Fault\",\"during\":\"%s\",\"k\":%ld,\"injected\":%ld,\"stack\":", op, yv_fail_at, yv_faults_injected - faults_before);
+      jcstr(yv_fault_stack);
+      fputs("}\n", out);
+    }
   }
   fputs("{\"e\":\"End\"}\n", out);
   fflush(out);
